@@ -24,3 +24,4 @@ import TvCore.Props.LinksWorld
 #print axioms TV.LinksWorld.healthy_delivered_in_window
 #print axioms TV.LinksWorld.never_duplicated
 #print axioms TV.LinksWorld.equal_latency_fifo
+#print axioms TV.C14.fifo_any_flag
